@@ -213,7 +213,7 @@ def hash_stability(chk, lineages):
     outs = []
     for seed in ("0", "1", "2", "12345"):
         p = subprocess.run(["/venv/bin/python", "-c", HASH_SNIPPET], input=src, capture_output=True, text=True,
-                           env=dict(os.environ, PYTHONHASHSEED=seed, PYTHONPATH="/repo"), timeout=300)
+                           env=dict(os.environ, PYTHONHASHSEED=seed, PYTHONPATH=os.environ.get("VERIF_REPO", "/repo")), timeout=300)
         if p.returncode != 0:
             raise V.MachineryError("hash subprocess failed: " + p.stderr[-1500:])
         outs.append(json.loads(p.stdout.strip().splitlines()[-1]))
